@@ -125,7 +125,11 @@ def gen_cases(rng, tier):
             ' '.join('v%d %s' % (j, VK_OUT[j]) for j in range(nseq)),
             ' '.join('v%d %s' % (j, seq_txt(s)) for j, s in enumerate(seqs)))
         h = []
-        kind = rng.choice(['complete', 'complete', 'prefix-then-other', 'timeout', 'random'])
+        kind = rng.choice(['complete', 'complete', 'complete-slow', 'prefix-then-other', 'timeout', 'random'])
+        # complete-slow: every key comes within the timeout of the previous one, the whole sequence takes longer than the timeout
+        slow = kind == 'complete-slow'
+        if slow:
+            kind = 'complete'
         target = rng.choice(seqs)
         ev = typings(target, rng)
         if kind == 'prefix-then-other':
@@ -134,11 +138,28 @@ def gen_cases(rng, tier):
         if not always:
             h += ['d%d' % K['a'], 't2', 'u%d' % K['a'], 't2']
         gapset = [1, 2, 3] if kind != 'timeout' else [1, 2, T - 1, T, T + 1]
+        if slow:
+            gapset = [(T - 2) // 2, (T - 2) // 2 - 1, (T - 2) // 3]
         downs = []
-        for d, k in ev:
+        # OS auto-repeat of a typed key that is still held while the sequence is in progress (never of the key that completes it:
+        # that one is the subject of known finding hidden-sequence-key-held-past-end of C14)
+        reps = rng.random() < 0.35 and not slow
+        since_press = 4
+        last_d = max((j for j, (d, _k) in enumerate(ev) if d == 'd'), default=-1)
+        for j, (d, k) in enumerate(ev):
             h.append('%s%d' % (d, K[k]))
             (downs.append(k) if d == 'd' else (k in downs and downs.remove(k)))
-            h.append('t%d' % rng.choice(gapset))
+            if reps and d == 'd' and j < last_d and kind != 'timeout':
+                for _ in range(rng.randint(1, 3)):
+                    h += ['t1', 'r%d' % K[k]]
+            g = rng.choice(gapset)
+            if slow:
+                # the timeout restarts at every press: keep press-to-press distances (releases in between included) below it
+                if d == 'd':
+                    since_press = 0
+                g = max(0, min(g, T - 2 - since_press))
+                since_press += g
+            h.append('t%d' % g)
         for k in downs:
             h += ['u%d' % K[k], 't2']
         if kind == 'random':
@@ -173,7 +194,7 @@ def gen_cases(rng, tier):
         shadow = any(s2 is not target and any(o == presses[:len(o)] or cpl(o, presses) >= 2 for o in flat_orders(s2))
                      and (any(it3[0] == 'ov' for it3 in target) or any(it3[0] == 'ov' for it3 in s2)) for s2 in seqs)
         cases.append({'id': 'c12-run-%d' % i, 'cfg': cfg, 'hist': h, 'sub': 'ksim', 'kind': kind, 'mode': mode, 'always': always,
-                      'shadow': shadow, 'target_vk': seqs.index(target), 'tags': {'kind': kind, 'mode': mode, 'always_on': always, 'shadowed': shadow}})
+                      'shadow': shadow, 'target_vk': seqs.index(target), 'tags': {'kind': kind + ('-slow' if slow else ''), 'mode': mode, 'always_on': always, 'shadowed': shadow, 'os_repeats': reps}})
     return cases
 
 
@@ -230,14 +251,18 @@ def oracle(case, it):
         n = sum(l.split().count('d%d' % code) for l in it if l.startswith('@'))
         if n != 1:
             return 'typing a defined sequence within the timeout tapped its virtual key %d times%s' % (n, ' [plain-sequence-shadows-overlap-group]' if case.get('shadow') else '')
-    if case.get('mode') == 'hidden-suppressed' and case.get('kind') in ('complete',) and not case.get('always'):
+    if case.get('mode') in ('hidden-suppressed', 'hidden-delay-type') and case.get('kind') in ('complete',) and not case.get('always') \
+            and not case.get('shadow'):
+        # a completed sequence: neither hidden mode ever shows a typed key to the OS, as a press or as an auto-repeat
         typed = {K[k] for k in POOL}
         for l in it:
-            if l.startswith('@'):
-                for e in l.split()[1:]:
-                    m = re.fullmatch(r'd(\d+)', e)
+            if l.startswith(('@', 'R@')):
+                evs = l.split(':', 1)[1].split() if l.startswith('R@') else l.split()[1:]
+                for e in evs:
+                    m = re.fullmatch(r'd(\d+)', e) or re.fullmatch(r'rp?(\d+)', e)
                     if m and int(m.group(1)) in typed:
-                        return 'hidden-suppressed mode pressed typed key %s at the OS while the sequence was in progress' % m.group(1)
+                        return '%s mode sent typed key %s to the OS (%s) while the sequence was in progress' % (
+                            case['mode'], m.group(1), 'auto-repeat' if l.startswith('R@') else 'press')
     return None
 
 
